@@ -7,8 +7,10 @@ import sys
 
 from . import env
 
-EVDIR = os.path.join(env.VERIF, "evidence")
-OUT = os.path.join(env.VERIF, "out")
+# (VERIF_EVDIR / VERIF_OUT: scratch locations for runs against modified trees, so that they can go on beside a
+# run on the real tree)
+EVDIR = os.environ.get("VERIF_EVDIR") or os.path.join(env.VERIF, "evidence")
+OUT = os.environ.get("VERIF_OUT") or os.path.join(env.VERIF, "out")
 KF = os.path.join(env.VERIF, "KNOWN_FINDINGS.txt")
 
 
